@@ -16,6 +16,7 @@ Snips == <<
   "{{ a + b }}", "{{ a.b[c]|f(d, 1) }}", "{{ not a and b or c }}", "{{ a is not divisible by(3) }}", "{{ a ? b : c }}",
   "{{ [a, b, 1] }}", "{{ {a: b, 'c': d} }}", "{{ f(a, b) }}", "{{ \"x#{a}y\" }}", "{{ a starts with b }}", "{{ a not in b }}",
   "{{ - a ** 2 }}", "{{ 1 .. 3 }}", "{{ a b-and c }}", "{{ a matches 'x' }}", "{{ (a) }}", "{{ a|f|g }}", "{{ not (a) }}", "{{ a in (b) }}", "{{ {a: {b: \"x#{c}z\"}}.a.b }}", "{{ [{a: \"#{c}\"}] }}", "{{ f({a: \"x#{c}\"}, [1]) }}", "{{ {a: (\"#{c}\")} }}",
+  "{{ x }}", "{{ d ~ x }}", "{{ x ? d : v }}",
   "{{ 1 .. - 1 }}", "{{ - a .. + b }}", "{{ [- a, + b] }}", "{{ f(- a, not b) }}", "{{ a == - b }}", "{{ {a: - b} }}",
   "{{ not inactive }}", "{{ a is nothing }}", "{{ a in index }}", "{{ isa or b }}",
   "{% if a %}", "{% elseif a == 1 %}", "{% else %}", "{% endif %}", "{% for k, v in s if v %}", "{% endfor %}", "{% set x = a ~ b %}",
